@@ -122,13 +122,12 @@ namespace nmtools::index
             auto normalize_roll_index = [](nm_index_t index, const auto axis) -> nm_index_t
             #endif
             {
+                // wrap around as many times as needed (shift may exceed the extent)
+                index = index % (nm_index_t)axis;
                 if (index < 0) {
-                    return axis + index;
-                } else if ((nm_index_t)index >= (nm_index_t)axis) {
-                    return index - axis;
-                } else {
-                    return index;
+                    index = index + (nm_index_t)axis;
                 }
+                return index;
             };
 
             if constexpr (is_none_v<axis_t>) {
